@@ -48,7 +48,7 @@ DECIDING = [
     'numqi.entangle._misc.hf_interpolate_dm', 'numqi.entangle.symext.get_ABk_symmetric_extension_boundary',
     'numqi.entangle.symext.is_ABk_symmetric_ext', 'PureBosonicExt.forward', 'AutodiffCHAREE.forward',
     'CHABoundaryBagging.solve', 'threshold/dm', 'threshold/ppt', 'threshold/batched', 'interpolate', 'nesting/offline',
-    'inner-in-outer/labelled-state-at-symext', 'cha/feasible-point',
+    'inner-in-outer/labelled-state-at-symext', 'cha/feasible-point', 'reference-bosonic-sdp',
 ]
 
 TOL_ORDER = 1e-4      # slack for orderings that involve an SDP / LP answer
@@ -83,7 +83,9 @@ def shards(tier, seed):
     if q:
         ret += nest[:7]
         # (2,3) k=3 states at the non-bosonic k'=3 test make the first-order feasibility solver run 30-50 s per call
-        ret.append({'name': 'pureb-c', 'cfg': [[2, 3, 3]], 'nstate': 1, 'feed_lbfgs': False, 'cpu_budget_s': B})
+        ret.append({'name': 'pureb-c', 'cfg': [[2, 3, 3]], 'nstate': 1, 'feed_lbfgs': False, 'cpu_budget_s': B,
+                    'named': [{'dims': [3, 3], 'ks': [3, 4], 'nrand': 1, 'sym_kmax': 3}, {'dims': [2, 4], 'ks': [2, 3], 'nrand': 0},
+                              {'dims': [2, 3], 'ks': [3, 4], 'nrand': 0}]})
         ret.append({'name': 'cha', 'ncha': 10, 'nmodel': 2, 'kmax22': 3, 'cpu_budget_s': B})
         ret += nest[7:]
         ret.append({'name': 'pureb-a', 'cfg': [[3, 3, 2], [2, 4, 2], [2, 2, 4], [2, 2, 2], [2, 3, 2]], 'nstate': 2, 'cpu_budget_s': B})
@@ -104,6 +106,10 @@ def shards(tier, seed):
         ret.append({'name': 'certk-hook', 'certk': {'hook': [[2, 2], [3, 2], [3, 3], [4, 2]], 'sym': [], 'nsym': 0}, 'cpu_budget_s': B})
         for c in [[2, 3, 4], [3, 3, 3], [2, 3, 3], [2, 2, 4], [2, 4, 2], [2, 2, 3], [3, 3, 2], [2, 3, 2]]:
             ret.append({'name': f'certk-{c[0]}{c[1]}-k{c[2]}', 'certk': {'hook': [], 'sym': [c], 'nsym': 6}, 'cpu_budget_s': B})
+        ret.append({'name': 'named-33', 'named': [{'dims': [3, 3], 'ks': [2, 3, 4], 'nrand': 4, 'sym_kmax': 3}], 'cpu_budget_s': B})
+        ret.append({'name': 'named-23', 'named': [{'dims': [2, 3], 'ks': [2, 3, 4], 'nrand': 4, 'sym_kmax': 3}], 'cpu_budget_s': B})
+        ret.append({'name': 'named-24-22', 'named': [{'dims': [2, 4], 'ks': [2, 3], 'nrand': 4, 'sym_kmax': 2},
+                                                     {'dims': [2, 2], 'ks': [2, 3, 4, 5], 'nrand': 4}], 'cpu_budget_s': B})
         ret += [{'name': f'thresholds-{i}', 'n': 800} for i in range(3)]
     return ret
 
@@ -173,7 +179,7 @@ def _admissible(x, tol=1e-9):
 def _cfg_str(e):
     if e['method'] == 'symext':
         return f"symext(k={e['k']},ppt={int(e['ppt'])},boson={int(e['boson'])})"
-    if e['method'] in ('pureb-state', 'kext-state'):
+    if e['method'] in ('pureb-state', 'kext-state', 'ref-boson'):
         return f"{e['method']}(k={e['k']})"
     return e['method']
 
@@ -681,6 +687,8 @@ def _relation(e1, e2):
             return 'nesting/pureb-state<=dm', slack
         if m1 == 'kext-state':
             return 'nesting/certified-kext-state<=dm', slack
+        if m1 == 'ref-boson':
+            return 'nesting/reference-bosonic-sdp<=dm', slack
         return None
     if e1['dims'] is None or e1['dims'] != e2['dims']:
         return None
@@ -690,7 +698,20 @@ def _relation(e1, e2):
         if m1 in ('cha', 'sep-point'):
             return 'nesting/cha<=ppt', slack
         return None
+    if m2 == 'ref-boson':
+        # reference SDP of the bosonic k2-extension set: contains every bosonic k1>=k2 extension set and every separable point
+        if m1 == 'symext' and e1['boson'] and e1['k'] >= e2['k']:
+            return 'nesting/boson-kext<=reference-bosonic-sdp', slack
+        if m1 in ('cha', 'sep-point'):
+            return 'nesting/cha<=reference-bosonic-sdp', slack
+        if m1 == 'pureb-state' and e1['k'] >= e2['k']:
+            return 'nesting/pureb-state<=reference-bosonic-sdp', slack
+        return None
     if m2 == 'symext':
+        if m1 == 'ref-boson':
+            if e1['k'] >= e2['k'] and not e2['ppt']:
+                return 'nesting/reference-bosonic-sdp<=kext', slack
+            return None
         if m1 in ('cha', 'sep-point'):
             return 'nesting/cha<=kext', slack
         if m1 == 'pureb-state':
@@ -740,7 +761,7 @@ def check_nesting(ctx, mon):
             uniq.setdefault((e['method'], e['dims'], e.get('k'), e.get('ppt'), e.get('boson'), round(e['beta'], 12)), e)
         evs = list(uniq.values())
         betas = [e['beta'] for e in evs]
-        has_sdp = any(e['method'] in ('symext', 'cha', 'pureb-state', 'sep-point', 'kext-state') for e in evs)
+        has_sdp = any(e['method'] in ('symext', 'cha', 'pureb-state', 'sep-point', 'kext-state', 'ref-boson') for e in evs)
         if has_sdp:
             dims = next((e['dims'] for e in evs if e['dims'] is not None), None)
             ctx.case('nesting', d, dig, sorted(_cfg_str(e) for e in evs), nontrivial=(max(betas) - min(betas) > 1e-3))
@@ -788,15 +809,18 @@ def check_nesting(ctx, mon):
                 ctx.set_case({'direction_digest': dig, 'inner': e1, 'outer': e2})
                 ctx.check(exc <= slack, key, f'{key}: boundary length of the smaller set exceeds that of the larger set along the same direction '
                           f'by more than {slack:g}', wit, point='nesting/offline')
-        # definitional equalities of the first level of the hierarchy: 1-ext = all states, 1-ext + PPT = PPT states
+        # two-sided checks: 1-ext = all states, 1-ext + PPT = PPT states (definitions of the first level of the hierarchy), and
+        # the bosonic k-ext boundary against the reference's own SDP on A (x) Sym^k(B)
         for e1 in evs:
-            if e1['method'] != 'symext' or e1['k'] != 1:
+            if e1['method'] != 'symext':
                 continue
             for e2 in evs:
-                if e1['ppt'] and e2['method'] in ('ppt', 'ref-ppt') and e2['dims'] == e1['dims']:
+                if e1['k'] == 1 and e1['ppt'] and e2['method'] in ('ppt', 'ref-ppt') and e2['dims'] == e1['dims']:
                     key = 'symext-k1+ppt/!=ppt-boundary'
-                elif (not e1['ppt']) and e2['method'] in ('dm', 'ref-dm'):
+                elif e1['k'] == 1 and (not e1['ppt']) and e2['method'] in ('dm', 'ref-dm'):
                     key = 'symext-k1/!=dm-boundary'
+                elif e2['method'] == 'ref-boson' and e1['boson'] and (not e1['ppt']) and e1['k'] == e2['k'] and e1['dims'] == e2['dims']:
+                    key = 'symext-boson/!=reference-bosonic-sdp'
                 else:
                     continue
                 gap = abs(e1['beta'] - e2['beta'])
@@ -818,7 +842,8 @@ def check_nesting(ctx, mon):
                         continue
                     gap = abs(r1 - e2['beta'])
                 ctx.set_case({'direction_digest': dig, 'inner': e1, 'outer': e2})
-                ctx.check(gap <= TOL_ORDER, key, 'the k=1 extension boundary must coincide with the state-space (resp. PPT) boundary up to 1e-4',
+                ctx.check(gap <= TOL_ORDER, key, 'the k-extension boundary must coincide with its independent reference (k=1: state-space / PPT boundary; '
+                          'bosonic: the reference SDP on A (x) Sym^k(B)) up to 1e-4',
                           wit, point='nesting/offline')
     ctx.set_case(None)
     ctx.extra['nesting_worst_excess(inner-outer; <=slack required)'] = {k: float(v) for k, v in sorted(mon.excess.items())}
@@ -876,6 +901,33 @@ def named_directions(dA, dB):
         out.append(('isotropic', R.herm(0.7 * R.max_entangled(d, d) + 0.3 * np.eye(d * d) / (d * d))))
     if (dA, dB) == (3, 3):
         out.append(('tiles-bes', R.tiles_bes()))
+    return out
+
+
+def partial_swap_werner(dA, dB, a):
+    """(1 - a*F)/Tr with F the swap on the common min(dA,dB)-dimensional block (the Werner family for dA == dB)."""
+    m = min(dA, dB)
+    f = np.zeros((dA * dB, dA * dB))
+    for i in range(m):
+        for j in range(m):
+            f[i * dB + j, j * dB + i] = 1
+    x = np.eye(dA * dB) - a * f
+    return R.herm(x / np.trace(x))
+
+
+def antisymmetric_heavy_directions(rng, dA, dB, nrand):
+    """directions with a large antisymmetric (Werner-like) component: there the bosonic and the symmetric extension sets differ
+    most (for generic random directions their boundaries coincide within solver tolerance)."""
+    out = [('werner-like(+0.9)', partial_swap_werner(dA, dB, 0.9)), ('werner-like(-0.9)', partial_swap_werner(dA, dB, -0.9))]
+    for j in range(nrand):
+        w = [0.1, 0.03, 0.3][j % 3]
+        out.append((f'werner-like(+0.9)+{w}*random-dm', R.herm((1 - w) * partial_swap_werner(dA, dB, 0.9) + w * rand_dm(rng, dA * dB))))
+    if nrand >= 2:
+        out.append(('werner-like(+0.5)', partial_swap_werner(dA, dB, 0.5)))
+        out.append(('max-entangled', R.max_entangled(dA, dB)))
+        out.append(('werner-like(+0.9)+0.2*pure-entangled', R.herm(0.8 * partial_swap_werner(dA, dB, 0.9) + 0.2 * rand_pure_entangled(rng, dA, dB))))
+        if (dA, dB) == (3, 3):
+            out.append(('tiles-bes', R.tiles_bes()))
     return out
 
 
@@ -944,6 +996,23 @@ class Driver:
     def boundary(self, rho, dims, k, ppt, boson, **kw):
         return self._timed(f'boundary{tuple(dims)}k{k}ppt{int(ppt)}boson{int(boson)}',
                            lambda: self.E.get_ABk_symmetric_extension_boundary(rho, dims, k, use_ppt=ppt, use_boson=boson, **kw))
+
+    def ref_boson(self, rho, dims, k):
+        """independent oracle: the reference's own SDP for the bosonic k-extension boundary (explicit Dicke embedding, eps=1e-7)."""
+        import time
+        t0 = time.time()
+        b = R.bosonic_ext_boundary_sdp(rho, dims[0], dims[1], k)
+        rec = self.ctx.extra.setdefault('sdp_wall_s(count,total,max)', {}).setdefault(f'reference-bosonic-sdp{tuple(dims)}k{k}', [0, 0.0, 0.0])
+        dt = time.time() - t0
+        rec[0] += 1
+        rec[1] = round(rec[1] + dt, 2)
+        rec[2] = round(max(rec[2], dt), 2)
+        if b is None:
+            self.ctx.inconclusive('reference-sdp-not-optimal')
+            return None
+        self.ctx.hit('reference-bosonic-sdp')
+        self.mon.event(rho, dims, 'ref-boson', b, k=int(k))
+        return b
 
     def is_ext(self, rho, dims, k, ppt, boson, tag=''):
         return self._timed(f'is_ext{tag}{tuple(dims)}k{k}ppt{int(ppt)}boson{int(boson)}',
@@ -1037,6 +1106,8 @@ def run_nest(ctx, numqi, mon, shard):
                 b = drv.boundary(rho, dims, k, ppt, boson)
                 if b is not None and np.isfinite(b):
                     betas[(k, ppt, boson)] = float(b)
+            if i % 3 == 0 and (kmax, False, True) in betas:
+                drv.ref_boson(rho, dims, kmax)
             # relational: a state max(1e-2, 10%) inside the reported k-ext boundary must be accepted, one 3e-2 outside rejected
             # (1e-3 inside, or 1e-2 inside next to a pure state, makes the first-order feasibility solver iterate for 10-90 s)
             if betas:
@@ -1324,6 +1395,41 @@ def run_certk(ctx, numqi, mon, shard):
                 feed(s2, e2, (dA, dB), k, f'symmetrised-rank{rank}', 0.97)
 
 
+def run_named(ctx, numqi, mon, shard):
+    """antisymmetric-heavy named directions: bosonic and symmetric k-extension boundaries for every k of the plan, the bosonic one
+    also against the reference's own SDP (two-sided); the offline checker then sees beta_(k+1)-boson <= beta_k-boson <= beta_k-sym
+    on directions where these are strictly different."""
+    E = numqi.entangle
+    rng = ctx.rng
+    drv = Driver(ctx, numqi, mon)
+    for plan in shard['named']:
+        dA, dB = plan['dims']
+        dims = (dA, dB)
+        ks = plan['ks']
+        for idx, (kind, rho) in enumerate(antisymmetric_heavy_directions(rng, dA, dB, plan['nrand'])):
+            if cpu_left(ctx) < 0:
+                ctx.inconclusive('budget-exhausted')
+                break
+            exact = '+' not in kind.replace('(+', '(')
+            ctx.workload('corner' if exact else 'random')
+            ctx.set_case({'op': 'named', 'dims': dims, 'direction': kind, 'ks': ks})
+            with ctx.guard('named'):
+                bl, bu = E.get_density_matrix_boundary(rho)
+                pl, pu = E.get_ppt_boundary(rho, dims)
+                betas = {}
+                for k in ks:
+                    betas[f'k={k},boson'] = drv.boundary(rho, dims, k, False, True)
+                    betas[f'k={k},reference-bosonic-sdp'] = drv.ref_boson(rho, dims, k)
+                    # the symmetric (non-bosonic) SDP at the top level costs 10-40 s on non-symmetric directions of (3,3)/(2,3)
+                    if exact or k <= plan.get('sym_kmax', max(ks)):
+                        betas[f'k={k},symmetric'] = drv.boundary(rho, dims, k, False, False)
+                ctx.case('named', dims, R.direction_digest_source(rho), ks, nontrivial=True)
+                if idx < 3:
+                    ctx.sample({'kind': 'named-direction', 'dims': dims, 'direction': kind, 'direction_digest': digest(R.direction_digest_source(rho)),
+                                'beta_dm': float(bu), 'beta_ppt': float(pu),
+                                'betas': {k: (None if v is None else round(float(v), 7)) for k, v in betas.items()}})
+
+
 def run(ctx, shard):
     import numqi
     import time
@@ -1344,8 +1450,12 @@ def run(ctx, shard):
             run_cha(ctx, numqi, mon, shard)
         elif name.startswith('certk'):
             run_certk(ctx, numqi, mon, shard)
+        elif name.startswith('named'):
+            pass
         else:
             raise ValueError(name)
+        if shard.get('named'):
+            run_named(ctx, numqi, mon, shard)
     finally:
         with ctx.quiet():
             check_nesting(ctx, mon)
